@@ -89,6 +89,37 @@ fn check(case: &DecCase, p: &mut Probe) -> Check {
     Ok(())
 }
 
+/// matrices without any check (0 x n: "every check involves at least two bits" holds for each of
+/// the none there are): every word is a codeword, so every call succeeds with 0 iterations and the
+/// sign pattern of its input
+fn no_check_cases(_t: Tier) -> Vec<(usize, u8)> {
+    [1usize, 2, 6, 64, 257].iter().flat_map(|&n| (0..4u8).map(move |v| (n, v))).collect()
+}
+
+fn check_no_checks(c: &(usize, u8), p: &mut Probe) -> Check {
+    let (n, v) = *c;
+    let h = Mat::new(0, n);
+    let hs = h.to_sparse();
+    let llrs: Vec<f64> = (0..n).map(|i| match v {
+        0 => 1.5,
+        1 => if i % 3 == 0 { -2.25 } else { 0.75 },
+        2 => if i % 2 == 0 { 0.0 } else { -1e30 },
+        _ => [5e-324, -0.0, 14.5, -15.875, 1e-30][i % 5],
+    }).collect();
+    for imp in factory_variants() {
+        let name = imp.to_string();
+        let mut dec = guarded(|| build_factory(&imp, hs.clone())).map_err(|e| Fail::new("panic", format!("{name}: building a decoder for a 0 x {n} matrix panicked: {e}")))?;
+        for limit in [0usize, 1, 7] {
+            let res = guarded(|| dec.decode(&llrs, limit)).map_err(|e| Fail::new("panic", format!("{name}: decode panicked on a 0 x {n} matrix (no checks, limit {limit}): {e}")))?;
+            check_one(&name, &res, &h, &llrs, limit)?;
+            ensure!(res.is_ok(), "no-checks-failure", "{name}: 0 x {n} matrix, limit {limit}: every word satisfies all (zero) checks, but the decoder returns {res:?}");
+            p.inner += 1;
+        }
+    }
+    p.nontrivial();
+    Ok(())
+}
+
 pub fn property() -> Property {
     Property {
         id: "C01",
@@ -100,6 +131,13 @@ pub fn property() -> Property {
                 strategy: |_| dec_case(8, 14),
                 check,
                 health: &[("converged-after>=1", 0.20), ("failed-at-limit>=1", 0.20), ("zero-iteration", 0.05), ("limit-0", 0.05)],
+            }),
+            Box::new(EnumSub {
+                name: "no-checks",
+                rule: "matrices 0 x n (n = 1, 2, 6, 64, 257) x four LLR vectors x the 36 names x limits 0, 1, 7 on one object: Ok with 0 iterations and the sign pattern of the input",
+                cases: no_check_cases,
+                check: check_no_checks,
+                exhaustive: false,
             }),
             Box::new(Sub {
                 name: "large",
